@@ -256,9 +256,8 @@ Proof.
   unfold represent_json in RJ. rewrite JB in RJ. cbn [bind] in RJ.
   exists (x_b64prot x). split.
   - destruct (e_ser o); [contradiction | |].
-    + destruct (x_recips x); [discriminate |]. inversion RJ; subst. simpl.
-      rewrite str_eqb_refl. reflexivity.
-    + inversion RJ; subst. simpl. rewrite str_eqb_refl. reflexivity.
+    + destruct (x_recips x); [discriminate |]. inversion RJ; subst. reflexivity.
+    + inversion RJ; subst. reflexivity.
   - rewrite AS. apply aad_json. exact N.
 Qed.
 
